@@ -226,6 +226,19 @@ func c04r9(c *core.Ctx) {
 					if elemVars[m.Info.ObjectOf(y)] {
 						injective = true
 					}
+					// the container handed back by a lookup helper: it is selected from the helper's argument
+					if hc, k := tupleSource(m, f, y); hc != nil {
+						if kk, cal, _ := m.Callee(hc); kk == core.CallStatic && cal != nil && cal.Body != nil {
+							core.InspectNoLits(cal.Body, func(n ast.Node) bool {
+								if rs, ok := n.(*ast.ReturnStmt); ok && k < len(rs.Results) {
+									if pj := rootParam(cal, rs.Results[k], 0); pj >= 0 && pj < len(hc.Args) {
+										scan(hc.Args[pj], depth+1)
+									}
+								}
+								return true
+							})
+						}
+					}
 				case *ast.IndexExpr:
 					if idn, ok := ast.Unparen(m.StripConv(y.Index)).(*ast.Ident); ok && loopVars[m.Info.ObjectOf(idn)] {
 						injective = true
